@@ -131,7 +131,7 @@ pub fn judge_raw(input: &[u8], acc: &mut Acc) {
     }
 }
 
-const TOKENS: [&[u8]; 36] = [
+pub const TOKENS: [&[u8]; 36] = [
     b"$", b"@", b".", b"*", b"[", b"]", b"(", b")", b"?", b",", b":", b"\"", b"\\", b"u", b"{", b"}", b"'", b"a", b"1", b"-", b"+", b" ", b"==", b"!=", b"<", b"<=", b"&&", b"||", b"last", b"to", b"exists", b"null", b"true", b"\"a\"", b"\"\"", b"1.5",
 ];
 
